@@ -1,7 +1,7 @@
 """C02 — admissible adapter occurrences are found; exact copies never survive."""
 from hypothesis import strategies as st
 
-from lib import gen, oracle
+from lib import cli, gen, oracle
 from lib.core import Sub, Violation
 from checks import c01
 
@@ -172,7 +172,189 @@ def complete_case(draw):
     return {"sub": "complete", "adapter": spec, "read": read, "labels": labels}
 
 
+# ---------------------------------------------------------------- command line: several adapter sources
+CLI_TYPES = {"-a": ["back", "back", "suffix", "niback"], "-g": ["front", "front", "prefix", "nifront", "rightmost"],
+             "-b": ["anywhere"]}
+
+
+@st.composite
+def _params(draw):
+    """Search parameters attached to one specification (or to one file: specification)."""
+    p = {}
+    if draw(st.integers(0, 2)) == 0:
+        p["e"] = draw(st.sampled_from([0, 0.1, 0.2, 0.25, 0.34]))
+    if draw(st.integers(0, 2)) == 0:
+        p["o"] = draw(st.integers(1, 8))
+    if draw(st.integers(0, 4)) == 0:
+        p["noindels"] = True
+    return p
+
+
+def _adapter_text(draw):
+    n = draw(st.integers(4, 12))
+    s = draw(st.text(alphabet=draw(st.sampled_from(["ACGT", "ACGT", "ACGT", "ACGTN"])), min_size=n, max_size=n))
+    if set(s) <= {"N"}:
+        s = "A" + s[1:]
+    return s
+
+
+@st.composite
+def cli_case(draw):
+    """One to three adapter sources on one command line: direct specifications (optionally with their own
+    parameters) and file: specifications (optionally anchored, optionally with file-wide parameters), in any
+    order, with global -e/-O/--no-indels.  Reads carry an occurrence of one of the adapters, planted against the
+    parameters that adapter has according to the documentation (own > file-wide > global)."""
+    glob = {"e": draw(st.sampled_from([None, None, 0, 0.1, 0.2])), "O": draw(st.sampled_from([None, None, 1, 3, 5])),
+            "no_indels": draw(st.integers(0, 4)) == 0, "no_index": draw(st.booleans()),
+            "rw": draw(st.integers(0, 5)) == 0}
+    sources = []
+    for i in range(draw(st.integers(1, 3))):
+        opt = draw(st.sampled_from(["-a", "-a", "-g", "-b"]))
+        if draw(st.integers(0, 2)) > 0:
+            t = draw(st.sampled_from(CLI_TYPES[opt]))
+            params = draw(_params())
+            if t in ("prefix", "suffix"):
+                params.pop("o", None)  # the parser rejects o= on anchored adapters
+            sources.append({"kind": "direct", "opt": opt, "type": t, "seq": _adapter_text(draw), "params": params})
+        else:
+            anchor = draw(st.sampled_from({"-a": ["", "", "$"], "-g": ["", "", "^"], "-b": [""]}[opt]))
+            params = draw(_params())
+            if anchor:
+                params.pop("o", None)
+            sources.append({"kind": "file", "opt": opt, "anchor": anchor,
+                            "records": [_adapter_text(draw) for _ in range(draw(st.integers(1, 2)))],
+                            "params": params})
+    sc = {"sub": "cli", "glob": glob, "sources": sources, "reads": []}
+    specs = effective_specs(sc)
+    for _ in range(draw(st.integers(1, 5))):
+        spec = draw(st.sampled_from(specs))
+        sn = spec["seq"]
+        k = int(spec["e"] * (len(sn) - sn.count("N")))
+        r = draw(st.integers(0, 3))
+        if r == 0:
+            left = draw(st.text(alphabet="ACGT", max_size=6)) if spec["type"] not in ("prefix", "nifront") else ""
+            right = draw(st.text(alphabet="ACGT", max_size=6)) if spec["type"] not in ("suffix", "niback") else ""
+            sc["reads"].append(left + sn.replace("N", draw(st.sampled_from("ACGT"))) + right)
+        else:
+            sc["reads"].append(draw(gen.planted_read(sn, min(k, 3), max_flank=6))[0].upper())
+    return sc
+
+
+def effective_specs(sc):
+    """Reference view of the adapters a command line defines: type, sequence and the parameters the documentation
+    gives each one (its own parameters, else those of its file: specification, else the global options)."""
+    g = sc["glob"]
+    out = []
+
+    def eff(params, t, seq):
+        return {"type": t, "seq": seq,
+                "e": params.get("e", g["e"] if g["e"] is not None else 0.1),
+                "o": params.get("o", g["O"] if g["O"] is not None else 3),
+                "indels": not (params.get("noindels") or g["no_indels"]), "aw": True, "rw": g["rw"]}
+
+    for src in sc["sources"]:
+        if src["kind"] == "direct":
+            out.append(eff(src["params"], src["type"], src["seq"]))
+        else:
+            t = {"-a": "back", "-g": "front", "-b": "anywhere"}[src["opt"]]
+            if src["anchor"] == "$":
+                t = "suffix"
+            elif src["anchor"] == "^":
+                t = "prefix"
+            for rec in src["records"]:
+                out.append(eff(src["params"], t, rec))
+    return out
+
+
+def render_cli(sc):
+    g = sc["glob"]
+    args, files = [], {}
+    if g["e"] is not None:
+        args += ["-e", str(g["e"])]
+    if g["O"] is not None:
+        args += ["-O", str(g["O"])]
+    if g["no_indels"]:
+        args.append("--no-indels")
+    if g["no_index"]:
+        args.append("--no-index")
+    if g["rw"]:
+        args.append("--match-read-wildcards")
+
+    def ptext(p):
+        return "".join([f";e={p['e']}" if "e" in p else "", f";o={p['o']}" if "o" in p else "",
+                        ";noindels" if p.get("noindels") else ""])
+
+    for i, src in enumerate(sc["sources"]):
+        if src["kind"] == "direct":
+            t, seq = src["type"], src["seq"]
+            text = {"back": seq, "suffix": seq + "$", "niback": seq + "X", "front": seq, "prefix": "^" + seq,
+                    "nifront": "X" + seq, "rightmost": seq + ";rightmost", "anywhere": seq}[t]
+            args += [src["opt"], text + ptext(src["params"])]
+        else:
+            name = f"ad{i}.fasta"
+            files[name] = cli.fasta([(f"s{i}x{j}", rec, None) for j, rec in enumerate(src["records"])])
+            spec = ("^" if src["anchor"] == "^" else "") + "file" + ("$" if src["anchor"] == "$" else "") + ":" + name
+            args += [src["opt"], spec + ptext(src["params"])]
+    return args, files
+
+
+def check_cli(sc, ctx):
+    """'trimmed read at the command line': a read holding an admissible occurrence of any adapter of the command
+    line must not come out as untrimmed, whatever the order and form in which the adapters were given."""
+    args, files = render_cli(sc)
+    recs = [(f"r{i}x", s, None) for i, s in enumerate(sc["reads"])]
+    files["in.fasta"] = cli.fasta(recs)
+    args += ["--untrimmed-output", "ut.fasta", "-o", "out.fasta", "in.fasta"]
+    r = cli.run(args, files)
+    if r.exit != 0:
+        raise Violation(f"cutadapt failed on a valid command line {args}: exit={r.exit} {r.errors} {r.tb}")
+    untrimmed = {x[0].split()[0] for x in r.records("ut.fasta")}
+    trimmed = {x[0].split()[0]: x[1] for x in r.records("out.fasta")}
+    specs = effective_specs(sc)
+    ctx.label(f"cli:sources={len(sc['sources'])}")
+    for src in sc["sources"]:
+        ctx.label("cli:" + src["kind"] + (":params" if src["params"] else ""))
+    nt = False
+    # With two or more anchored adapters of one kind the CLI builds an index, and strings that two adapters share
+    # are documented as "will *not* be trimmed": nothing is demanded for those adapters unless --no-index is given.
+    indexed = set() if sc["glob"]["no_index"] else {
+        t for t in ("prefix", "suffix") if sum(1 for x in specs if x["type"] == t) >= 2}
+    for name, read, _ in recs:
+        for spec in specs:
+            t, seq = spec["type"], spec["seq"]
+            if t in indexed:
+                ctx.label("cli:not-demanded-index-ambiguity-possible")
+                continue
+            M = len(seq)
+            aw_eff = not set(seq) <= set("ACGT")
+            eq = oracle.eq_relation(aw_eff, spec["rw"])
+            ov = M if t in ("prefix", "suffix") else min(spec["o"], M)
+            w = oracle.admissible_exists(seq, read, oracle.FLAGS[t], spec["e"], ov, spec["indels"], eq, aw_eff,
+                                         exact_only=True)
+            if w is None and ((not spec["indels"]) or t in oracle.NO_START_SKIP):
+                w = oracle.admissible_exists(seq, read, oracle.FLAGS[t], spec["e"], ov, spec["indels"], eq, aw_eff)
+            if w is None:
+                continue
+            nt = True
+            if name in untrimmed or name not in trimmed:
+                raise Violation(
+                    f"read {read!r} holds an admissible occurrence (adapter[{w[0]}:{w[1]}], {w[2]} errors) of the {t} "
+                    f"adapter {seq!r} with documented parameters e={spec['e']} o={spec['o']} indels={spec['indels']}, "
+                    f"but {args} leaves it untrimmed", observed="untrimmed", expected=list(w))
+            break
+    if len(specs) == 1 and specs[0]["type"] == "back":
+        seq = specs[0]["seq"]
+        eq = oracle.eq_relation(not set(seq) <= set("ACGT"), specs[0]["rw"])
+        for name, out in trimmed.items():
+            if oracle.exact_copies(seq, out, eq):
+                raise Violation(f"an exact copy of the regular 3' adapter {seq!r} remains in the output {out!r} of "
+                                f"read {name} ({args})", observed=out)
+    if nt:
+        ctx.nontrivial_case({"args": args})
+
+
 SUBS = {
+    "cli": Sub(strategy=lambda tier: cli_case(), check=check_cli),
     "complete": Sub(strategy=lambda tier: complete_case(), check=check_complete,
                     sweep=lambda spec: c01.sweep_cases(spec, sub="complete")),
 }
@@ -182,10 +364,12 @@ def plan(tier):
     specs = []
     if tier == "quick":
         specs += [{"sub": "complete", "kind": "hyp", "examples": 5000} for _ in range(10)]
+        specs += [{"sub": "cli", "kind": "hyp", "examples": 700} for _ in range(3)]
         specs += [{"sub": "complete", "kind": "sweep", "amax": 3, "rmax": 4, "rates": [0, 0.5],
                    "part": i, "of": 6} for i in range(6)]
     else:
         specs += [{"sub": "complete", "kind": "hyp", "examples": 120000} for _ in range(14)]
+        specs += [{"sub": "cli", "kind": "hyp", "examples": 20000} for _ in range(4)]
         specs += [{"sub": "complete", "kind": "sweep", "amax": 4, "rmax": 6, "rates": [0, 0.26, 0.34, 0.5],
                    "part": i, "of": 32} for i in range(32)]
     return specs
